@@ -1,4 +1,6 @@
 import TensorModel.Proofs.Kernels
+import TensorModel.Proofs.IterPaths
+import TensorModel.Proofs.FreshWf
 /-!
   C11 — comparisons: bool result vs 1/0 same-type result; operand order for a scalar on the left.
   Property theorems only; helper lemmas live in `TensorModel/Proofs/Kernels.lean`
@@ -39,6 +41,95 @@ theorem engCmpVV_default (st : St) (op : String) (tc : List String) (a b : Dense
   refine ⟨_, _, h, rfl, rfl, rfl, rfl, rfl, rfl, rfl, rfl, rfl, hm, ?_, hfr⟩
   intro i hi
   exact ⟨_, _, cell_some_cellD (hA.has i hi), cell_some_cellD (hB.has i hi), hv i hi⟩
+
+/-- **Layout-blind: default mode on the iterator path.** When an operand needs an iterator (a view with gaps, a pending
+    transpose, …) or the operands have different data orders, `StdEng.<Cmp>(a, b)` returns a fresh bool tensor `r` of the
+    first operand's shape and data order (default strides), and for every position `k` of the logical (row-major
+    coordinate) order - the order in which the three iterators run (C05) - the cell `r`'s iterator addresses at `k` holds
+    `op x y` for the elements `x`, `y` the operands' iterators address at `k`, in operand order. Operands and every
+    pre-existing buffer are untouched. -/
+theorem engCmpVV_default_iter (st : St) (op : String) (tc : List String) (a b : Dense)
+    (hsh : shapeEq a.shape b.shape = true) (hdt : a.dt = b.dt) (htc : a.dt ∈ tc)
+    (hu : (a.requiresIterator || b.requiresIterator || !sameOrd a b) = true)
+    (hma : a.mask = none) (hmb : b.mask = none) (hla : a.win.len ≠ 1) (hlb : b.win.len ≠ 1)
+    (hor : ∀ i ∈ (freshOf st "b" a.shape a.ap.o.col).offsets, 0 ≤ i ∧ i < (denseLen a.shape : Int))
+    (hoa : ∀ i ∈ a.offsets, 0 ≤ i ∧ i < (a.win.len : Int)) (hob : ∀ j ∈ b.offsets, 0 ≤ j ∧ j < (b.win.len : Int))
+    (hnd : (freshOf st "b" a.shape a.ap.o.col).offsets.Nodup)
+    (hA : InBuf st a.win.buf a.win.off a.win.len) (hB : InBuf st b.win.buf b.win.off b.win.len) :
+    ∃ out r, engCmpVV st op tc a b {} = .ok out ∧ out.ret = .fresh r ∧ out.reuse = none ∧
+      r.dt = "b" ∧ r.ap.shape = a.shape ∧ r.ap.strides = Dense.defaultStrides a.ap.o.col a.shape ∧
+      r.ap.o.col = a.ap.o.col ∧
+      r.win = ⟨st.heap.size, 0, denseLen a.shape, denseLen a.shape⟩ ∧ r.view = false ∧ r.old = none ∧
+      out.st.mheap = st.mheap ∧
+      (∀ (k : Nat) m i j, r.offsets[k]? = some m → a.offsets[k]? = some i → b.offsets[k]? = some j →
+        ∃ x y, cell st a.win.buf (a.win.off + i.toNat) = some x ∧ cell st b.win.buf (b.win.off + j.toNat) = some y ∧
+          cell out.st r.win.buf m.toNat = some (.app2 op x y)) ∧
+      (∀ b' k, b' < st.heap.size → cell out.st b' k = cell st b' k) := by
+  obtain ⟨st', h, hm, hv, hfr⟩ := engCmpVV_default_iter' st op tc a b ⟨by simpa using htc, hdt, hsh⟩ hu hma hmb hla hlb
+    hor hoa hob hnd hA hB
+  refine ⟨_, _, h, rfl, rfl, rfl, rfl, rfl, rfl, rfl, rfl, rfl, hm, ?_, hfr⟩
+  intro k m i j hk hi hj
+  have h1 := hoa i (List.mem_of_getElem? hi)
+  have h2 := hob j (List.mem_of_getElem? hj)
+  exact ⟨_, _, cell_some_cellD (hA.has.at h1.1 h1.2), cell_some_cellD (hB.has.at h2.1 h2.2), hv k m i j hk hi hj⟩
+
+/-- The two hypotheses of the iterator-path theorems that speak about the *result* (`hor`, `hnd`: its iterator stays inside
+    its buffer and never addresses a cell twice) are theorems for every shape with positive extents: the result has the
+    default strides of its data order (column-major: shapes that carry one stride per axis, i.e. outside the recorded
+    region F24). -/
+theorem fresh_result_offsets_wf (st : St) (dt : String) (sh : Shape) (col : Bool) (hp : ∀ d ∈ sh, 0 < d) (hne : sh ≠ [])
+    (hcol : col = true → isScalarEquiv sh = false ∧ isVector sh = false) :
+    (∀ i ∈ (freshOf st dt sh col).offsets, 0 ≤ i ∧ i < (denseLen sh : Int)) ∧ (freshOf st dt sh col).offsets.Nodup :=
+  freshOf_offsets_wf st dt sh col hp hne hcol
+
+/-- `engCmpVV_default_iter` with those two hypotheses discharged: for operands of any proper shape -/
+theorem engCmpVV_default_iter_closed (st : St) (op : String) (tc : List String) (a b : Dense)
+    (hsh : shapeEq a.shape b.shape = true) (hdt : a.dt = b.dt) (htc : a.dt ∈ tc)
+    (hu : (a.requiresIterator || b.requiresIterator || !sameOrd a b) = true)
+    (hma : a.mask = none) (hmb : b.mask = none) (hla : a.win.len ≠ 1) (hlb : b.win.len ≠ 1)
+    (hp : ∀ d ∈ a.shape, 0 < d) (hne : a.shape ≠ [])
+    (hcol : a.ap.o.col = true → isScalarEquiv a.shape = false ∧ isVector a.shape = false)
+    (hoa : ∀ i ∈ a.offsets, 0 ≤ i ∧ i < (a.win.len : Int)) (hob : ∀ j ∈ b.offsets, 0 ≤ j ∧ j < (b.win.len : Int))
+    (hA : InBuf st a.win.buf a.win.off a.win.len) (hB : InBuf st b.win.buf b.win.off b.win.len) :
+    ∃ out r, engCmpVV st op tc a b {} = .ok out ∧ out.ret = .fresh r ∧ r.dt = "b" ∧ r.ap.shape = a.shape ∧
+      r.ap.o.col = a.ap.o.col ∧
+      (∀ (k : Nat) m i j, r.offsets[k]? = some m → a.offsets[k]? = some i → b.offsets[k]? = some j →
+        ∃ x y, cell st a.win.buf (a.win.off + i.toNat) = some x ∧ cell st b.win.buf (b.win.off + j.toNat) = some y ∧
+          cell out.st r.win.buf m.toNat = some (.app2 op x y)) ∧
+      (∀ b' k, b' < st.heap.size → cell out.st b' k = cell st b' k) := by
+  obtain ⟨hor, hnd⟩ := freshOf_offsets_wf st "b" a.shape a.ap.o.col hp hne hcol
+  obtain ⟨out, r, h, hret, _, hrdt, hrs, _, hrc, _, _, _, _, hv, hfr⟩ :=
+    engCmpVV_default_iter st op tc a b hsh hdt htc hu hma hmb hla hlb hor hoa hob hnd hA hB
+  exact ⟨out, r, h, hret, hrdt, hrs, hrc, hv, hfr⟩
+
+/-- **… and `AsSameType()` on the iterator path**: a fresh tensor `r` of the *operand* type, shape and data order; the cell
+    `r`'s iterator addresses at position `k` holds the 1/0 form `op.same x y` of the elements the operands' iterators
+    address at `k`. -/
+theorem engCmpVV_same_iter (st : St) (op : String) (tc : List String) (a b : Dense)
+    (hsh : shapeEq a.shape b.shape = true) (hdt : a.dt = b.dt) (htc : a.dt ∈ tc)
+    (hu : (a.requiresIterator || b.requiresIterator || !sameOrd a b) = true)
+    (hma : a.mask = none) (hmb : b.mask = none) (hlb : b.win.len ≠ 1) (hl1 : denseLen a.shape ≠ 1)
+    (hca : a.win.len ≤ a.win.cap)
+    (hor : ∀ i ∈ (freshOf st a.dt a.shape a.ap.o.col).offsets, 0 ≤ i ∧ i < (denseLen a.shape : Int))
+    (hoa : ∀ i ∈ a.offsets, 0 ≤ i ∧ i < (a.win.len : Int)) (hob : ∀ j ∈ b.offsets, 0 ≤ j ∧ j < (b.win.len : Int))
+    (hnd : (freshOf st a.dt a.shape a.ap.o.col).offsets.Nodup)
+    (hA : InBuf st a.win.buf a.win.off a.win.len) (hB : InBuf st b.win.buf b.win.off b.win.len) :
+    ∃ out r, engCmpVV st op tc a b { same := true } = .ok out ∧ out.ret = .fresh r ∧
+      r.dt = a.dt ∧ r.ap.shape = a.shape ∧ r.ap.strides = Dense.defaultStrides a.ap.o.col a.shape ∧
+      r.ap.o.col = a.ap.o.col ∧
+      r.win = ⟨st.heap.size, 0, denseLen a.shape, denseLen a.shape⟩ ∧
+      out.st.mheap = st.mheap ∧
+      (∀ (k : Nat) m i j, r.offsets[k]? = some m → a.offsets[k]? = some i → b.offsets[k]? = some j →
+        ∃ x y, cell st a.win.buf (a.win.off + i.toNat) = some x ∧ cell st b.win.buf (b.win.off + j.toNat) = some y ∧
+          cell out.st r.win.buf m.toNat = some (.app2 (op ++ ".same") x y)) ∧
+      (∀ b' k, b' < st.heap.size → cell out.st b' k = cell st b' k) := by
+  obtain ⟨st', h, hm, hv, hfr⟩ := engCmpVV_same_iter' st op tc a b ⟨by simpa using htc, hdt, hsh⟩ hu hma hmb hlb hl1 hca
+    hor hoa hob hnd hA hB
+  refine ⟨_, _, h, rfl, rfl, rfl, rfl, rfl, rfl, hm, ?_, hfr⟩
+  intro k m i j hk hi hj
+  have h1 := hoa i (List.mem_of_getElem? hi)
+  have h2 := hob j (List.mem_of_getElem? hj)
+  exact ⟨_, _, cell_some_cellD (hA.has.at h1.1 h1.2), cell_some_cellD (hB.has.at h2.1 h2.2), hv k m i j hk hi hj⟩
 
 /-- **`AsSameType()`**: a fresh tensor of the *operand* type, shape and data order whose cell `i` is the 1/0 form
     `op.same a[i] b[i]`. -/
@@ -222,6 +313,15 @@ example : ∃ out, engCmpScalar st6 "gt" ordTypes tv scv false { same := true } 
     cell out.st 3 0 = some (.app2 "gt.same" (.src 1 0) (.src 0 0)) ∧
     cell out.st 3 1 = some (.app2 "gt.same" (.src 1 0) (.src 0 2)) ∧
     cell out.st 3 2 = some (.app2 "gt.same" (.src 1 0) (.src 0 4)) := ⟨_, rfl, rfl, rfl, rfl⟩
+-- the iterator path: the (1,3) view with gaps of the former F31 witness compared with a contiguous (1,3) tensor
+example := engCmpVV_default_iter st6 "gt" ordTypes tv trv (by decide) rfl (by decide) (by decide) rfl rfl (by decide) (by decide)
+  (by decide) (by decide) (by decide) (by decide) ⟨_, rfl, by decide⟩ ⟨_, rfl, by decide⟩
+example := engCmpVV_same_iter st6 "gt" ordTypes tv trv (by decide) rfl (by decide) (by decide) rfl rfl (by decide) (by decide)
+  (by decide) (by decide) (by decide) (by decide) (by decide) ⟨_, rfl, by decide⟩ ⟨_, rfl, by decide⟩
+example : ∃ out, engCmpVV st6 "gt" ordTypes tv trv {} = .ok out ∧
+    cell out.st 3 0 = some (.app2 "gt" (.src 0 0) (.src 2 0)) ∧
+    cell out.st 3 1 = some (.app2 "gt" (.src 0 2) (.src 2 1)) ∧
+    cell out.st 3 2 = some (.app2 "gt" (.src 0 4) (.src 2 2)) := ⟨_, rfl, rfl, rfl, rfl⟩
 /-- a concrete run: `Gt(2, t)` compares `gt 2 t[i]`, not `gt t[i] 2` -/
 example : ∃ out, engCmpScalar st "gt" ordTypes ta sc false {} = .ok out ∧
     cell out.st 3 1 = some (.app2 "gt" (.src 2 0) (.src 0 1)) := ⟨_, rfl, rfl⟩
